@@ -4,6 +4,7 @@
   compares the VIR text of both sides.
 -/
 import Cog.Builder.Types
+import Cog.Builder.Veneers
 namespace Cog.Builder
 open Cog.IR
 
@@ -17,5 +18,61 @@ def optionalConstRefWitness : Schemas :=
       ("K", { name := "K", ty := .scalar "string" (.str "x") [] {}, selfPkg := "p", selfName := "K" }),
       ("S", { name := "S", ty := .struct [{ name := "k", ty := .ref "p" "K" {}, required := false }] [] none {},
               selfPkg := "p", selfName := "S" })] }]
+
+
+/-! ### C17 -/
+
+structure VWitness where
+  ss : Schemas
+  files : List VFile
+  lang : String := "go"
+
+/-- derive the builders, then rewrite (what `codegen.Pipeline` does) -/
+def VWitness.run (w : VWitness) : Outcome Builders :=
+  match fromAST w.ss with
+  | .ok bs => rewrite w.files w.lang w.ss bs 1
+  | .err e => .err e
+  | .panic s => .panic s
+
+def wStr : Ty := .scalar "string" .nil [] {}
+def wBool : Ty := .scalar "bool" .nil [] {}
+
+/-- `p.S = { a?: bool = true, n?: int64 (>= 1), tags?: []string, flags?: map[string]bool }` -/
+def wS : Obj :=
+  { name := "S", selfPkg := "p", selfName := "S",
+    ty := .struct [
+      { name := "a", ty := .scalar "bool" .nil [] { dflt := .bool true }, required := false },
+      { name := "n", ty := .scalar "int64" .nil [{ op := ">=", args := [.int "i64" 1] }] {}, required := false },
+      { name := "tags", ty := .array wStr {}, required := false },
+      { name := "flags", ty := .map wStr wBool {}, required := false }] [] none {} }
+
+def wSchema (extra : List (String × Obj)) : Schemas := [{ pkg := "p", objects := ("S", wS) :: extra }]
+
+def wFile (bs : List BRule) (os : List ORule) : List VFile := [{ language := "all", pkg := "p", builders := bs, options := os }]
+
+def wDupOption : VWitness := { ss := wSchema [], files := wFile [] [.duplicate (.byName "S.a") "dup"] }
+def wDupBuilder : VWitness := { ss := wSchema [], files := wFile [.duplicate (.byObject "S") "Copy" []] [] }
+def wDismissed : VWitness :=
+  { ss := wSchema [("E", { name := "E", selfPkg := "p", selfName := "E", ty := .struct [] [] none {} })], files := wFile [] [] }
+def wRenameArgs : VWitness := { ss := wSchema [], files := wFile [] [.renameArguments (.byName "S.n") ["x"]] }
+def wPromoteAppend : VWitness :=
+  { ss := wSchema [], files := wFile [.promote (.byObject "S") ["tags"]] [.arrayToAppend (.byName "S.tags")] }
+def wMergeRename : VWitness :=
+  { ss := wSchema [
+      ("I", { name := "I", selfPkg := "p", selfName := "I", ty := .struct [{ name := "x", ty := wStr, required := false }] [] none {} }),
+      ("D", { name := "D", selfPkg := "p", selfName := "D", ty := .struct [{ name := "inner", ty := .ref "p" "I" {}, required := false }] [] none {} })],
+    files := wFile [.mergeInto "D" "I" "inner" [] []] [.renameArguments (.byName "D.x") ["y"]] }
+def wMapIndexUnfold : VWitness :=
+  { ss := wSchema [], files := wFile [] [.mapToIndex (.byName "S.flags"), .unfoldBoolean (.byName "S.flags") "on" "off"] }
+
+def vWitness : String → Option VWitness
+  | "dup-option-default" => some wDupOption
+  | "dup-builder-default" => some wDupBuilder
+  | "dismissed" => some wDismissed
+  | "rename-args-constraint" => some wRenameArgs
+  | "promote-array-to-append" => some wPromoteAppend
+  | "merge-rename-arguments" => some wMergeRename
+  | "map-index-unfold" => some wMapIndexUnfold
+  | _ => none
 
 end Cog.Builder
